@@ -38,8 +38,10 @@ package rulelist
 //@   modifies nothing
 //@   ensures err == nil ==> f != nil && fresh(f) && RL(f) && f.filter.engine != nil
 //@   ensures err != nil ==> f == nil
+// A managed result cache is a new cache (or the cache that stores nothing).
 //@ func NewManagedResultCache
 //@   modifies nothing
+//@   ensures fresh(ref(cache)) || isEmptyCache(cache)
 //@ func (*Refreshable).RulesCount
 //@   modifies nothing
 
